@@ -762,6 +762,143 @@ fn eviction_part(rep: &Report, rt: &tokio::runtime::Runtime, seed: u64, shard: u
     rep.nontrivial(format!("evict/{seed}/{shard}").as_bytes());
 }
 
+// ---------------------------------------------------------------------------------
+// eviction racing with a republish (controlled schedule)
+//
+// The eviction task works from a *snapshot* of the expiry index and then asks the store actor,
+// one `CheckExpired{time, key}` message at a time, to delete.  A key that is republished with a
+// current timestamp after the snapshot was taken but before its message is handled must keep its
+// fresh packet ("never a newer one").  The pause point `signedpackets.evict.after_snapshot`
+// holds the eviction thread right after it received a snapshot; the harness imposes the order
+//   old(K) committed < snapshot (contains K's expired row) < fresh(K) committed < CheckExpired(K).
+
+const EVICT_GATE: &str = "signedpackets.evict.after_snapshot";
+
+fn eviction_race_part(rep: &Report, rt: &tokio::runtime::Runtime, seed: u64, shard: u64, racers_n: usize) {
+    use common::gate;
+    let mut rng = Rng::derive(seed, "C39-evict-race", shard);
+    let replay = json!({"mode": "evict-race", "seed": seed, "shard": shard, "racers": racers_n});
+    let (backend, shared) = Backend::from_image(Vec::new(), true);
+    *ACTIVE.lock().unwrap() = Some(shared.clone());
+    rep.eval();
+    gate::install();
+    let now = now_micros();
+    let racers: Vec<Key> = (0..racers_n).map(|_| Key::from_rng(&mut rng)).collect();
+    let budget = Duration::from_secs(90);
+    type Got = Vec<(Packet, Option<Vec<u8>>, bool)>;
+    let res: Result<Option<Got>, String> = rt.block_on(async {
+        let db = redb::Database::builder().create_with_backend(backend).map_err(|e| format!("create: {e}"))?;
+        let o = StoreOptions { max_batch_size: 8, max_batch_time: Duration::from_millis(2), eviction: Duration::from_secs(3600), eviction_interval: Duration::from_millis(1) };
+        let store = ZoneStoreHandle::open(db, o).map_err(|e| format!("open: {e:#}"))?;
+        let start = Instant::now();
+        let mut out: Got = Vec::new();
+        for (i, k) in racers.iter().enumerate() {
+            // some keys get a second, even older packet first, or bystanders in the same round
+            let old = packet(k, now - 2 * HOUR - rng.below(50 * HOUR), 2 * i as u64 + 1);
+            let young = packet(k, now - rng.below(HOUR / 4), 2 * i as u64 + 2);
+            let young_signed = signed(&young);
+            store.insert(signed(&old)).await.map_err(|e| format!("insert: {e:#}"))?;
+            // hold the eviction thread at its second arrival from now on: that snapshot was
+            // requested after the old packet's commit, so it contains K's expired row
+            gate::arm(EVICT_GATE, 2);
+            let mut ordered = false;
+            if tokio::task::block_in_place(|| gate::wait_held(EVICT_GATE, Duration::from_secs(20))) {
+                gate::release(EVICT_GATE);
+                // wait until the first hold has really passed before looking for the second
+                let t = Instant::now();
+                while gate::held(EVICT_GATE) > 0 && t.elapsed() < Duration::from_secs(5) {
+                    tokio::task::yield_now().await;
+                }
+                if tokio::task::block_in_place(|| gate::wait_held(EVICT_GATE, Duration::from_secs(20))) {
+                    ordered = true;
+                }
+            }
+            store.insert(young_signed).await.map_err(|e| format!("insert: {e:#}"))?;
+            gate::disarm(EVICT_GATE);
+            gate::release(EVICT_GATE);
+            if !ordered {
+                rep.inconclusive("evict-gate-not-reached");
+            }
+            out.push((young, None, ordered));
+            if start.elapsed() > budget {
+                break;
+            }
+        }
+        gate::reset();
+        // two complete rounds after the last upsert, as in the plain eviction part
+        loop {
+            let done = {
+                let log = shared.log.lock().unwrap();
+                let last_upsert = log.iter().rposition(|o| matches!(o, Op::Upsert(..)));
+                let (mut stage, mut rounds) = (0, 0);
+                if let Some(lu) = last_upsert {
+                    for op in &log[lu..] {
+                        match (stage, op) {
+                            (0, Op::Commit) => stage = 1,
+                            (1, Op::EvictSnapshot) => stage = 2,
+                            (2, Op::EvictRoundEnd) => {
+                                rounds += 1;
+                                stage = 1;
+                            }
+                            _ => {}
+                        }
+                    }
+                }
+                rounds >= 2
+            };
+            if done {
+                break;
+            }
+            if start.elapsed() > budget + Duration::from_secs(30) {
+                return Ok(None);
+            }
+            tokio::time::sleep(Duration::from_millis(2)).await;
+        }
+        for (k, o) in racers.iter().zip(out.iter_mut()) {
+            o.1 = store.get_signed_packet(&k.public).await.map_err(|e| format!("get: {e:#}"))?.map(|p| p.as_bytes().to_vec());
+        }
+        drop(store);
+        Ok(Some(out))
+    });
+    gate::reset();
+    shared.recording.store(false, Ordering::SeqCst);
+    *ACTIVE.lock().unwrap() = None;
+    let got = match res {
+        Err(e) => {
+            rep.inconclusive("eviction-race-workload-failed");
+            rep.note(e);
+            return;
+        }
+        Ok(None) => {
+            rep.inconclusive("eviction-race-rounds-not-observed-within-budget");
+            return;
+        }
+        Ok(Some(g)) => g,
+    };
+    let log = shared.log.lock().unwrap().clone();
+    rep.count("evict.race.rounds_observed", log.iter().filter(|o| matches!(o, Op::EvictRoundEnd)).count() as u64);
+    for (young, g, ordered) in &got {
+        if *ordered {
+            rep.count("evict.race.fresh_committed_between_snapshot_and_check_expired", 1);
+        }
+        match g {
+            Some(b) if *b == young.full() => rep.count("evict.race.fresh_packets_kept", 1),
+            Some(b) => rep.violation("C39:evict-race:wrong-packet-kept", format!("want ts {} got ts {}", young.ts, ts_of(b)), replay.clone()),
+            None => rep.violation(
+                "C39:evict-race:unexpired-packet-removed-after-republish",
+                format!(
+                    "fresh packet (ts {} = {} s old, retention 3600 s) republished over an expired one {} is gone after the eviction rounds",
+                    young.ts,
+                    (now.saturating_sub(young.ts)) / 1_000_000,
+                    if *ordered { "between the eviction snapshot and its CheckExpired message" } else { "(order not imposed)" }
+                ),
+                replay.clone(),
+            ),
+        }
+    }
+    rep.nontrivial(format!("evict-race/{seed}/{shard}").as_bytes());
+}
+
 fn main() {
     let a = args();
     let rep = Arc::new(Report::new(
@@ -776,6 +913,8 @@ fn main() {
         let r = &v["replay"];
         if r["mode"] == "evict" {
             eviction_part(&rep, &rt, r["seed"].as_u64().unwrap(), r["shard"].as_u64().unwrap());
+        } else if r["mode"] == "evict-race" {
+            eviction_race_part(&rep, &rt, r["seed"].as_u64().unwrap(), r["shard"].as_u64().unwrap(), r["racers"].as_u64().unwrap_or(40) as usize);
         } else {
             // the workload is re-recorded from its seed: the same publishes, but batch
             // boundaries depend on thread timing, so the point index is indicative only
@@ -794,7 +933,12 @@ fn main() {
     for shard in 0..a.pick(2, 12) {
         eviction_part(&rep, &rt, a.seed, shard);
     }
+    for shard in 0..a.pick(2, 8) {
+        eviction_race_part(&rep, &rt, a.seed, shard, a.pick(20, 60));
+    }
     rep.set_exhaustive(false);
+    rep.require("evict.race.fresh_packets_kept", 20);
+    rep.require("evict.race.fresh_committed_between_snapshot_and_check_expired", 20);
     rep.require("crash_points.checked", a.pick(250, 3000));
     rep.require("crash_points.with_uncommitted_batch", 30);
     rep.require("crash_points.right_after_sync", 20);
